@@ -4,10 +4,10 @@ set -u
 D="$1"; W=/tmp/wt/validate-$$
 git -C /repo worktree add --detach "$W" HEAD >/dev/null 2>&1 || exit 3
 cd "$W"
-PYTHONPATH="$W" /venv/bin/python "$D/demo.py" >/tmp/validate-pristine.out 2>&1; P=$?
+PYTHONPATH="$W" /venv/bin/python "$D/demo.py" >/tmp/validate-pristine-$$.out 2>&1; P=$?
 git apply "$D/patch.diff" || { echo "PATCH DOES NOT APPLY"; git -C /repo worktree remove --force "$W"; exit 3; }
 T=$(PYTHONPATH="$W" /venv/bin/python -m pytest -q -p no:cacheprovider -x 2>&1 | tail -1)
-PYTHONPATH="$W" /venv/bin/python "$D/demo.py" >/tmp/validate-patched.out 2>&1; M=$?
+PYTHONPATH="$W" /venv/bin/python "$D/demo.py" >/tmp/validate-patched-$$.out 2>&1; M=$?
 cd /; git -C /repo worktree remove --force "$W"
 echo "pristine demo exit=$P  patched demo exit=$M  tests: $T"
-tail -2 /tmp/validate-patched.out
+tail -2 /tmp/validate-patched-$$.out
